@@ -1210,6 +1210,8 @@ pub const PREFIX_TEXTS: &[&str] = &[
     "#nil", "#t", "#f", "#x1F", "#b-101", "#o+17", "#d42", "1.5", "1e21", "1.5e+10", "-2.5E-3", "#\\newline", "#\\x41",
     "#\\space", "#\\a", "#\\λ", "\"a\\x41;b\"", "\"\\n\\t\\\\\"", "#u8(1 2 255)", "#vu8(0)", "'a", "`(a ,b ,@c)", "λx", "aλ",
     "(a . b)", "#(1 #(2))", "#u8(#xFF 1 #b101 #o7 #d9)", "#vu8(#x-0 +5)", "#:kw", "(1 #x10)", "\"λ\"", ".5x", "...", "+.x", "(.x)", "(a .b)", "#\\xD8000", "#\\delete",
+    // Emacs numeric escapes whose value passes through the surrogate range while being read (repaired by 9849ccb)
+    "\"\\xD8000\"", "?\\xD8000", "\"\\1540000\"", "?\\1540000", "\"\\N{U+D8000}\"", "?\\N{U+D8000}", "(?\\xDFFF0 \"\\xdbff0\")",
     "?a", "?\\^a", "?\\N{U+41}", "?\\u00e9", "?\\x41", "?\\101", "\"\\u00e9\\101\"", "[1 2]", ":kw", "\"\\N{U+3bb}\"", "\"\\^a\"",
 ];
 
